@@ -346,7 +346,7 @@ class Constructs(mixin.Container, core.Constructs):
 
         len0 = len(cell_methods0)
         if len0 != len(cell_methods1):
-            logger(
+            logger.info(
                 "Different numbers of cell methods: "
                 f"{cell_methods0!r} != {cell_methods1!r}"
             )  # pragma: no cover
@@ -398,6 +398,7 @@ class Constructs(mixin.Container, core.Constructs):
                         # names
                         axes1.remove(axis1)
                         indices.append(cm1.get_axes(()).index(axis1))
+                        break
                     elif axis1 is None:
                         # axis1
                         logger.info(
